@@ -44,6 +44,10 @@ def case_hostile(seed, out, spec, wd, idx):
     gg = graphs.GraphGen(r, hostile_p=0.0, max_depth=2, width=3)
     values = [gg.value() for _ in names]
     pos = r.randrange(len(names))
+    if kind == 'class_name_is_not_text' and placement in ('local', 'two', 'watch') and r.chance(0.7):
+        # the frame's own instance: its class is named on the frame
+        names = [n_ if n_ != 'self' else 'sixth' for n_ in names]
+        names[pos] = 'self'
     watches = []
     if placement in ('local', 'capture_return', 'capture_raise'):
         values[pos] = hv
